@@ -446,7 +446,7 @@ func (c *ComputedStyle) cascadeValue(key pr.PropKey) (value pr.DeclaredValue, sa
 			logger.WarningLogger.Printf("Ignored `%s: %s`, %s",
 				key, pa.Serialize(solvedTokens), err)
 
-			if pr.Inherited.Has(key.KnownProp) {
+			if pr.Inherited.Has(key.KnownProp) && !c.isRootElement() {
 				// Values in parent_style are already computed.
 				save = true
 				value = parent_style.Get(key)
